@@ -617,7 +617,7 @@ func init() {
 			}
 			for _, in := range xtalkInstances(tier) {
 				// concurrent quorum calls on equal / overlapping configurations (C05's family, quorum calls only)
-				if strings.HasPrefix(in.Name, "xtalk/QuorumCall") && !strings.Contains(in.Name, "Correctable") && !strings.Contains(in.Name, "GRPCCall") && !strings.Contains(in.Name, "cast") {
+				if strings.HasPrefix(in.Name, "xtalk/QuorumCall") && !strings.Contains(in.Name, "Correctable") && (!strings.Contains(in.Name, "GRPCCall") || strings.Contains(in.Name, "thr2")) && !strings.Contains(in.Name, "cast") {
 					in.Name = "among-concurrent-calls/" + in.Name
 					out = append(out, in)
 				}
